@@ -24,8 +24,12 @@ CHECKS = {
     "C11": dict(
         text="Theorems about the translated generic_temperature_decay(_c): partition, bounds, frame, saturation, "
              "temperature monotonicity, any number of consecutive close-outs; `pow` is a section variable whose two "
-             "hypotheses are proved for the executable surrogate. Exact correspondence + law monitor on the implementation.",
-        design="5/C11", tech="Coq proof over definitions regenerated from core.py + exact-rational correspondence",
+             "hypotheses are proved for the executable surrogate. The decay step of the store and arc models IS that function "
+             "(reflexivity), and for decaying tanks (any number of close-outs), decaying travel-time arcs and queue arcs (hence "
+             "decaying queue tanks) what remains plus what is reported equals what was held, at entry and at every close-out, "
+             "for any number of parcels in transit. Tie: T1 + exact correspondence of the core functions and of DecayTank, "
+             "DecayQueueTank, DecayArc, DecayArcAlt under random histories; C11 clause monitor after every operation.",
+        design="5/C11, 11", tech="Coq proof over definitions regenerated from core.py and over hand-written store/arc models + exact-rational correspondence + history monitor",
         note=NOTE + "Python's float ** for non-integer exponents is trusted to be positive and monotone."),
     "C02": dict(
         text="Theorems over the arc models for every operation sequence: plain/pull-only/push-only arcs keep out-record = "
